@@ -495,4 +495,5 @@ func c17(p *model.Prog, r *report.Result) {
 	r.Check(hasLoop, "C17.R6", fkey(grow, "grow", "until-fits"), p.Pos(grow.Pos()), "capacity grows in a loop bounded by the requested size", "grow enlarges the buffer a fixed number of times: a long enough string (URL parameters forwarded by relay push) overruns it")
 	c17r7(p, r)
 	c17r8(p, r, "C17.R8")
+	c17r9(p, r)
 }
